@@ -67,6 +67,65 @@ def run(chk):
             o["ok"] = True
             o["detail"] = "impure, reported once per construct: " + o["detail"]
 
+    # ------------------------------------------------------------------ D3: mutation of a pointee from const code
+    chk.rule("C12-D3.pointee", "const code never calls, through a pointer-like data member (unique_ptr / raw pointer: the pointee is not const inside a const method), a non-const method that "
+                               "writes its own members: such a call modifies state shared by all concurrent const callers without any mutable / const_cast being visible")
+    from tsg.typestate import member_writes as _mw
+    from tsg.flow import is_reachable as _reach
+    wm = {}
+
+    def writes_own(t, depth=0):
+        k = (t.key, t.sig)
+        if k in wm:
+            return wm[k]
+        wm[k] = None
+        res = next((txt(w)[:50] for w, fld, kd in _mw(t, into_lambda=False) if _reach(t, w)), None)
+        if res is None and depth < 3:
+            for c in t.calls(into_lambda=False):
+                if (callee(c) or "").startswith((t.cls or "?") + "::"):
+                    for t2 in P.targets(t, c):
+                        r2 = writes_own(t2, depth + 1)
+                        if r2:
+                            res = "%s -> %s" % (short(t2.name), r2)
+                            break
+                if res:
+                    break
+        wm[k] = res
+        return res
+    byks = {}
+    for fns_ in db.load_all().values():
+        for g in fns_:
+            byks[(g.key, g.sig)] = g
+    npt = 0
+    nseen_ptr = 0
+    for k in sorted(visited):
+        g = byks.get(k) if isinstance(k, tuple) else None
+        if g is None or not g.d.get("const") or g.file.startswith("@verif"):
+            continue
+        for c in g.calls(into_lambda=False):
+            if c.get("k") != "CXXMemberCallExpr" or gpu_only_call(g, c) or not _reach(g, c):
+                continue
+            h = callee_node(c) or {}
+            obj = call_object(c)
+            viaptr = [x for x in walk(obj) if x.get("k") == "MemberExpr" and x.get("field") and not x.get("mut") and
+                      ("unique_ptr" in (x.get("t") or "") or (x.get("t") or "").rstrip().endswith("*"))] if obj is not None else []
+            if not viaptr:
+                continue
+            nseen_ptr += 1          # positive control: the matcher sees calls made through pointer members (const callees included)
+            if h.get("cm") or h.get("static"):
+                continue            # const or static callee
+            if "const " in (viaptr[0].get("t") or "").split("unique_ptr<")[-1][:8]:
+                continue
+            for t in P.targets(g, c):
+                if t.file.startswith("@verif") or (t.name or "").startswith("std::"):
+                    continue
+                npt += 1
+                w = writes_own(t)
+                chk.ob("C12-D3.pointee", g.key + g.sig, "non-const %s called through %s" % (short(t.name), short(viaptr[0]["field"])), not w, g.loc(c),
+                       "the callee writes `%s`" % w if w else "the callee writes none of its members")
+    chk.floor("C12-D3.pointee", nseen_ptr, 10, "calls through pointer-like members in the const closure (matcher control)")
+    chk.ob("C12-D3.pointee", "(const closure)", "calls through pointer-like members: every callee is const or writes nothing", True, "", "%d calls seen, %d with a non-const callee" % (nseen_ptr, npt))
+
     # D2 + control
     nconst = 0
     control = 0
